@@ -13,13 +13,13 @@ import (
 )
 
 type Stat struct {
-	Forks       int
-	Merges      int
-	Pruned      int
-	Steps       int
-	Paths       int
-	Splits      int
-	UnwindFails int
+	Forks        int
+	Merges       int
+	Pruned       int
+	Steps        int
+	Paths        int
+	Splits       int
+	UnwindFails  int
 	Asserts      int // vAssert calls executed (on all paths)
 	AssertsConst int // of those, decided by the term simplifier (concrete paths, syntactically equal terms)
 }
